@@ -122,3 +122,110 @@ Proof. trivial. Qed.
 
 Lemma ParseMappings_total secs : safe (ParseMappings secs).
 Proof. unfold ParseMappings, safe. apply psections_total. Qed.
+
+(* ---- the parsed map only contains indices that are in range ---- *)
+(* a mapping is good for (ns, nn): what the printer and linker index with *)
+Definition good_mapping (ns nn : Z) (m : mapping) : Prop :=
+  let '(_, gcol, src, oline, ocol, name) := m in
+  0 <= gcol /\ 0 <= src < ns /\ 0 <= oline /\ 0 <= ocol /\ (name = -1 \/ 0 <= name < nn).
+
+Lemma good_mapping_mono ns nn ns' nn' m : ns <= ns' -> nn <= nn' -> good_mapping ns nn m -> good_mapping ns' nn' m.
+Proof. destruct m as [[[[[a b] c] d] e] f]. unfold good_mapping. intros. lia. Qed.
+
+Lemma wrap_i32_id x : - 2 ^ 31 <= x < 2 ^ 31 -> wrap_i32 x = x.
+Proof. intros H. unfold wrap_i32. rewrite Z.mod_small by lia. lia. Qed.
+
+Section LoopInv.
+  Variable raw : list Z.
+  Variables lineOffset columnOffset sourceOffset nameOffset sourcesLen namesLen : Z.
+  Hypothesis HSO : 0 <= sourceOffset. Hypothesis HSL : 0 <= sourcesLen.
+  Hypothesis HS : sourceOffset + sourcesLen < 2 ^ 31.
+  Hypothesis HNO : 0 <= nameOffset. Hypothesis HNL : 0 <= namesLen.
+  Hypothesis HN : nameOffset + namesLen < 2 ^ 31.
+
+  Let good := good_mapping (sourceOffset + sourcesLen) (nameOffset + namesLen).
+  Definition post (r : mresult) : Prop :=
+    match r with MErr _ _ _ _ => True | MDone _ acc => Forall good acc end.
+
+  Ltac step :=
+    match goal with
+    | |- forall r, bind ?e _ = Ok r -> _ =>
+      let v := fresh "v" in destruct e as [v| |] eqn:?; cbn [bind];
+                            [|intros ? ?; discriminate|intros ? ?; discriminate]
+    | |- forall r, (let '(_, _) := ?p in _) = Ok r -> _ => destruct p
+    | |- forall r, (if ?c then _ else _) = Ok r -> _ => destruct c eqn:?
+    | |- forall r, Ok _ = Ok r -> _ =>
+      let H := fresh in intros ? H; inversion H; subst; clear H; cbn [post]
+    end.
+
+  Lemma mloop_post fuel : forall st current acc, Forall good acc ->
+    forall r, mloop raw lineOffset columnOffset sourceOffset nameOffset sourcesLen namesLen fuel st current acc = Ok r -> post r.
+  Proof.
+    induction fuel as [|f IH]; intros st current acc Hacc; [intros r H; discriminate|].
+    cbn [mloop].
+    assert (Wsl : wrap_i32 sourcesLen = sourcesLen) by (apply wrap_i32_id; lia).
+    assert (Wnl : wrap_i32 namesLen = namesLen) by (apply wrap_i32_id; lia).
+    assert (Ws : wrap_i32 (sourceOffset + sourcesLen) = sourceOffset + sourcesLen) by (apply wrap_i32_id; lia).
+    assert (Wn : wrap_i32 (nameOffset + namesLen) = nameOffset + namesLen) by (apply wrap_i32_id; lia).
+    rewrite Wsl, Wnl, Ws, Wn.
+    repeat (first [ step | (apply IH; assumption) | exact I | exact Hacc ]).
+    all: apply IH; constructor; [|assumption]; unfold good, good_mapping;
+      repeat match goal with
+             | b : bool |- _ => match goal with |- context [if b then _ else _] => destruct b end
+             end;
+      cbn [negb andb orb] in *; lia.
+  Qed.
+End LoopInv.
+
+Definition sections_ok (secs : list section) : Prop :=
+  Forall (fun s => let '(_, _, sl, nl, _) := s in 0 <= sl /\ 0 <= nl) secs.
+Fixpoint total_sources (secs : list section) : Z :=
+  match secs with [] => 0 | (_, _, sl, _, _) :: r => sl + total_sources r end.
+Fixpoint total_names (secs : list section) : Z :=
+  match secs with [] => 0 | (_, _, _, nl, _) :: r => nl + total_names r end.
+
+Lemma total_sources_nonneg secs : sections_ok secs -> 0 <= total_sources secs /\ 0 <= total_names secs.
+Proof.
+  induction 1 as [|[[[[lo co] sl] nl] raw] r H _ IH]; cbn [total_sources total_names]; cbv beta iota in *; lia.
+Qed.
+
+Lemma psections_post secs : forall k nsrc nnames acc r,
+  sections_ok secs -> 0 <= nsrc -> 0 <= nnames ->
+  nsrc + total_sources secs < 2 ^ 31 -> nnames + total_names secs < 2 ^ 31 ->
+  Forall (good_mapping nsrc nnames) acc ->
+  psections secs k nsrc nnames acc = Ok r ->
+  match r with
+  | PMap ns nn ms => Forall (good_mapping ns nn) ms
+  | _ => True
+  end.
+Proof.
+  induction secs as [|[[[[lo co] sl] nl] raw] rest IH]; intros k nsrc nnames acc r Hok Hs Hn Hts Htn Hacc E.
+  - cbn [psections] in E. inversion E; subst; clear E.
+    match goal with |- context [if ?c then _ else _] => destruct c end; [exact I|]. apply Forall_rev. exact Hacc.
+  - inversion Hok as [|? ? Hhd Hrest]; subst. cbv beta iota in Hhd. destruct Hhd as [Hsl Hnl].
+    destruct (total_sources_nonneg rest Hrest) as [T1 T2].
+    cbn [total_sources total_names] in Hts, Htn.
+    cbn [psections] in E. destruct ((len raw =? 0) || (sl =? 0)) eqn:Esk.
+    + (* skipped section: the counts do not change (sl may be non-zero when the mappings are empty) *)
+      eapply IH; [exact Hrest|exact Hs|exact Hn| | |exact Hacc|exact E]; lia.
+    + rewrite (wrap_i32_id nsrc) in E by lia. rewrite (wrap_i32_id nnames) in E by lia.
+      destruct (mloop raw lo co nsrc nnames sl nl (S (length raw)) (mkM lo co nsrc 0 0 nnames) 0 acc) as [mr| |] eqn:Em;
+        cbn [bind] in E; try discriminate.
+      pose proof (mloop_post raw lo co nsrc nnames sl nl Hs Hsl ltac:(lia) Hn Hnl ltac:(lia) (S (length raw))
+                    (mkM lo co nsrc 0 0 nnames) 0 acc) as P.
+      assert (Hacc' : Forall (good_mapping (nsrc + sl) (nnames + nl)) acc).
+      { eapply Forall_impl; [|exact Hacc]. intros m. apply good_mapping_mono; lia. }
+      specialize (P Hacc' mr Em). destruct mr as [code v el cur|st' acc'].
+      * inversion E; subst. exact I.
+      * cbn [post] in P. eapply IH; [exact Hrest| | | | |exact P|exact E]; lia.
+Qed.
+
+(* the invariant the printer and the linker rely on: every mapping of a parsed
+   source map indexes inside Sources / Names and has non-negative positions *)
+Lemma parsed_map_indices_in_range_all secs ns nn ms :
+  sections_ok secs -> total_sources secs < 2 ^ 31 -> total_names secs < 2 ^ 31 ->
+  ParseMappings secs = Ok (PMap ns nn ms) -> Forall (good_mapping ns nn) ms.
+Proof.
+  intros Hok Hs Hn E. unfold ParseMappings in E.
+  exact (psections_post secs 0 0 0 [] (PMap ns nn ms) Hok ltac:(lia) ltac:(lia) ltac:(lia) ltac:(lia) (Forall_nil _) E).
+Qed.
